@@ -3,6 +3,8 @@ package main
 // Extractor "toolnode" (property C17): compose/tool_node.go, translated statement by statement
 // into Gallina over the vocabulary of Model/ToolsGenLib.v:
 //
+//	convTools, NewToolNode                                 the tool list -> indexes / packers, the first tool that
+//	                                                       cannot be taken is the error
 //	getToolsNodeOptions, WithToolOption, WithToolList      the fold of the call's option list
 //	(*ToolsNode).genToolCallTasks, newUnknownToolTask      call -> task table, order, unknown names
 //	runToolCallTaskByInvoke / runToolCallTaskByStream      what a task's execution is handed
@@ -12,34 +14,42 @@ package main
 //	                                                       shape is read out as constants (which
 //	                                                       tasks get a goroutine, which runs inline,
 //	                                                       the order spawn / inline / wait, what a
-//	                                                       goroutine executes in which order)
+//	                                                       goroutine executes in which order, whether
+//	                                                       every run is handed the tool options)
 //	schema.ToolMessage (schema/message.go)                 which argument becomes content / call id
 //
 // The translator is a small compiler for the fragment these functions are written in:
 //
 //	x := e    x = e    x.f = e    xs[i] = e    xs[i].f = e          lets / record and slice updates
+//	x.f[k] = e  (f a map / a slice)    var ( a T; b U )             map_set / sl_set on the field; typed zero values
 //	a.f, b.g = x.r.M(args)                                          a call with two results into two fields
-//	v, err := f(args); if err != nil { return nil, err | wrap }     monadic bind (res)
+//	v, err := f(args); if err != nil { return nil, err | wrap }     monadic bind (res); also v, err := tool.Info(ctx)
 //	v, ok := m[k]; if !ok { A } else { B }                          match on the map lookup
+//	if v, ok = x.(tool.I); ok { ... }                               the tool seen through that interface, or nil
 //	if c { ... } [else { ... }]                                     with the outer variables assigned inside as state
-//	for i := a; i < b; i++ { ... }   (and i >= b; i--)              for_up / for_down over the assigned outer variables
+//	for i := a; i < b; i++ { ... }   (and i >= b; i--)   continue    for_up / for_down over the assigned outer variables
+//	for i, v := range xs { ... }  (in a function with an error)     for_up 0 (len xs) with v := xs[i]
 //	for _, x := range xs { x(o) }                                   fold_left
 //	f(args) as a statement, f mutating a slice / pointer argument   rebinding of that argument
 //	return v, nil    return nil, errors.New/fmt.Errorf(...)         Ok v / Err (e_at fn k) — k = ordinal of the error
 //	return nil, fmt.Errorf("...%w...", e)                           return in source order; %w: the wrapped error's class
-//	func literals (closures), composite literals, len, make, append, nil tests, integer comparisons
+//	func literals (closures, not over a loop variable), composite literals, method values of a tool, len, make,
+//	append, nil tests, integer comparisons
 //
 // Slices are lists, reads and writes out of range are Panic (sl_get / sl_set / sl_upd), ints are Z,
-// pointer-typed struct fields and slice elements are options (nil = None), pointers to the structs
-// of this file held in locals / parameters are the struct itself.  context.Context is kept as a
-// value (Model/ToolsGenLib.v: the tool call id it carries).  Left out on purpose (outside C17):
-// the second argument of callbacks.ReuseHandlers, the contents of an executorMeta literal.
-// Anything else: "source shape not recognised" (translator tie unavailable, neutral Gen file).
+// pointer-typed struct fields and slice elements are options (nil = None), a slice the code tests against
+// nil is an option (slice_of where a plain slice is expected), a map is the list of its assignments (latest
+// first), pointers to the structs of this file held in locals / parameters are the struct itself.
+// context.Context is kept as a value (Model/ToolsGenLib.v: the tool call id it carries).  Left out on
+// purpose (outside C17): the second argument of callbacks.ReuseHandlers, the contents of an executorMeta.
+// Anything else: "source shape not recognised" (translator tie unavailable, neutral Gen file =
+// c17_toolnode_ref.go, the reference translation).
 //
-// Output: coq/Gen/ToolNode.v.  Proofs/GenAgreeC17.v proves the generated Invoke / Stream equal to
-// call_invoke / call_stream_open of Model/ToolsOpts.v (what the correspondence evaluates and the
-// C17 theorems are about), the generated genToolCallTasks to gen_tasks, the option fold to
-// get_node_opts and the goroutine program to prog_ok.
+// Output: coq/Gen/ToolNode.v.  Proofs/GenAgreeC17.v proves: generated NewToolNode followed by the generated
+// Invoke / Stream = call_invoke / call_stream_open of Model/ToolsOpts.v (what the correspondence evaluates
+// and the C17 theorems are about), generated convTools = conv_tools, genToolCallTasks = gen_tasks, the
+// option fold = get_node_opts, the goroutine program = prog_ok, and that the protocol of Model/ToolsPar.v
+// run on the generated task functions yields the semantics parallelRunToolCall is given in those proofs.
 
 import (
 	"fmt"
